@@ -61,7 +61,7 @@ pub fn run_batch(prop: Prop, seed: u64, first: u64, runs: u64, threads: usize, k
         let slots = slots.clone();
         let stop = stop.clone();
         std::thread::spawn(move || {
-            let limit_ms: u64 = std::env::var("WIRESIM_HANG_MS").ok().and_then(|v| v.parse().ok()).unwrap_or(60_000);
+            let limit_ms: u64 = std::env::var("WIRESIM_HANG_MS").ok().and_then(|v| v.parse().ok()).unwrap_or(120_000);
             while !stop.load(Ordering::Relaxed) {
                 std::thread::sleep(std::time::Duration::from_millis(200));
                 let now = t0.elapsed().as_millis() as u64;
@@ -554,7 +554,7 @@ pub fn replay(path: &str) -> i32 {
         }
     };
     // the execution runs in its own thread so that a hang can be declared (real clock used only for that)
-    let limit_ms: u64 = std::env::var("WIRESIM_HANG_MS").ok().and_then(|v| v.parse().ok()).unwrap_or(60_000);
+    let limit_ms: u64 = std::env::var("WIRESIM_HANG_MS").ok().and_then(|v| v.parse().ok()).unwrap_or(120_000);
     let (tx, rx) = std::sync::mpsc::channel();
     let scn = rp.scenario.clone();
     let pre = rp.prelude.clone();
